@@ -1,7 +1,7 @@
 """C02 — identifiers: txid ignores witness, wtxid covers it, block hash = header hash; mutable == immutable."""
 from hypothesis import strategies as st
 
-from ..runner import Violation, digest
+from ..runner import Violation, digest, unexpected
 from ..ref import wire as W, hashes as H
 from .. import libx, gen
 from .c01 import _hdr
@@ -38,6 +38,16 @@ def _pair_checks(what, a, b, ser):
             raise Violation(what + '/pyhash-' + name, 'hash(%s %s) != hash(serialisation)' % (name, what))
     if not (a == b) or not (b == a) or (a != b) or (b != a):
         raise Violation(what + '/eq', 'immutable and mutable %s with equal fields compare unequal' % what)
+    for name, o in (('immutable', a), ('mutable', b)):
+        # equality is equality of VALUES of the same kind: never equal to its own bytes, None, a number or a tuple of its bytes
+        for foreign in (ser, None, 0, (ser,), ser.hex()):
+            try:
+                if (o == foreign) is not False or (o != foreign) is not True or (foreign == o) is not False:
+                    raise Violation(what + '/eq-foreign', '%s %s compares equal to %s' % (name, what, type(foreign).__name__))
+            except Violation:
+                raise
+            except Exception as e:
+                raise unexpected(what + '/eq-foreign', e, 'comparison with %s' % type(foreign).__name__)
     if hash(a) != hash(b):
         raise Violation(what + '/pyhash-pair', 'hash() differs between immutable and mutable %s' % what)
     if a.GetHash() != b.GetHash():
